@@ -16,7 +16,7 @@ def make(shape):
     deps = ["distance3d.geometry." + KERNEL[shape.name], "distance3d.utils.transform_point", "distance3d.utils.norm_vector",
             "distance3d.utils.plane_basis_from_normal"]
 
-    @contract("colliders.%s.support_function" % K, fn=shape.cls + ".support_function", props=["C03", "C12"], deps=deps)
+    @contract("colliders.%s.support_function" % K, fn=shape.cls + ".support_function", props=["C03"], deps=deps)
     def _support(cx):
         """for every pose, size and direction d != 0: result is a point of the shape and no point of the shape projects further on d"""
         P = shape.params(cx)
